@@ -435,6 +435,19 @@ Heredocs == <<
   EchoHd("heredoc/empty", "both", HeredocEmpty("HEREDOC_START")),
   EchoHd("nowdoc/text", "both", Heredoc("NOWDOC_START", <<NdText>>)),
   EchoHd("nowdoc/empty", "both", HeredocEmpty("NOWDOC_START")),
+  \* inside "{$ ... }" the scanner is in PHP mode: a line that starts with the heredoc's own label there (a constant named like
+  \* the label, after a line break) does not end the body
+  EchoHd("heredoc/labelinside", "both",
+         Heredoc("HEREDOC_START", <<HdText,
+            Nd("ScalarEncapsedStringBrackets",
+               [OpenCurlyBracketTkn |-> TkG("{", "LR"),
+                Var |-> Nd("ExprArrayDimFetch",
+                   [Var |-> Nd("ExprVariable", [Name |-> Nd("Identifier", [IdentifierTkn |-> TkG("VAR", "L"), Value |-> Vl("IdentifierTkn")])]),
+                    OpenBracketTkn |-> Tk("["),
+                    Dim |-> Nd("ExprConstFetch", [Const |-> Nd("Name", [Parts |-> Sq(<<Nd("NamePart", [StringTkn |-> Tk("HDLABEL_NAME"), Value |-> Vl("StringTkn")])>>)])]),
+                    CloseBracketTkn |-> Tk("]")]),
+                CloseCurlyBracketTkn |-> TkG("}", "R")]),
+            HdText>>)),
   \* flexible heredoc (>= 7.3): indented closing label (the indentation stays in the last text part), heredoc inside an argument list
   EchoHd("heredoc/indented", "73", Heredoc("HEREDOC_START", <<HdTextIndent>>)),
   V("heredoc/arg", "ExprFunctionCall", {"expr"}, "73", L.atom, TRUE,
